@@ -198,22 +198,25 @@ def regularMissing (ds du : List Rat) (dmin : Rat) (hint : Option Rat) (perp : B
     let regular := mult.all (fun m => isClose m (roundHalfEven m : Rat) tolSpacing)
     if regular && perp then some (rabs sp, mult.map roundHalfEven) else none
 
+/-- "Inferred spacing does not match the given spacing_hint" -/
+def hintMismatch (sp : Rat) : Option Rat → Bool
+  | some h => !(isClose (rabs sp) h tolSpacing)
+  | none => false
+
 /-- `allow_missing_positions=False`: spacing is the mean gap, every gap of the sorted distinct distances must
 equal it (within `rtol`), the volume position is the rank of the distance -/
 def regularStrict (ds du : List Rat) (dmin dmax : Rat) (hint : Option Rat) (perp : Bool) :
     Except ErrKind (Option (Rat × List Int)) :=
   let sp := (dmax - dmin) / (((du.length : Int) : Rat) - 1)
-  let bad := match hint with
-    | some h => !(isClose (rabs sp) h tolSpacing)
-    | none => false
-  if bad then .error .runtime else
+  if hintMismatch sp hint then .error .runtime else
   let regular := (diffs (sortRat du)).all (fun d => isClose d sp tolSpacing)
   if regular && perp then
     .ok (some (rabs sp, ds.map (fun d => ((du.filter (fun e => e < d)).length : Int)))) else .ok none
 
 /-- `get_volume_positions`, two or more positions (`p0` is the first one) -/
-def volumePositionsMany (pos : List V3) (p0 rowCos colCos : V3) (hint : Option Rat) (allowMissing : Bool) :
+def volumePositionsMany (pos : List V3) (p0 rowCos colCos : V3) (hint : Option Rat) (allowMissing allowDup : Bool) :
     Except ErrKind (Option (Rat × List Int)) :=
+  if !allowDup && decide ((dedup pos).length < pos.length) then .ok none else
   if pos.all (fun p => p == p0) then .ok (some (defaultSpacing hint, pos.map (fun _ => 0)))
   else
     let n := normal rowCos colCos
@@ -226,17 +229,17 @@ def volumePositionsMany (pos : List V3) (p0 rowCos colCos : V3) (hint : Option R
       if allowMissing then .ok (regularMissing ds du dmin hint perp)
       else regularStrict ds du dmin dmax hint perp
 
-/-- `get_volume_positions(positions, iop, sort=True, allow_missing_positions, allow_duplicate_positions=True,
+/-- `get_volume_positions(positions, iop, sort=True, allow_missing_positions, allow_duplicate_positions,
 spacing_hint)`: `.ok none` = "not a regular volume", otherwise (|spacing|, volume position per input). -/
-def volumePositions (pos : List V3) (rowCos colCos : V3) (hint0 : Option Rat) (allowMissing : Bool) :
-    Except ErrKind (Option (Rat × List Int)) :=
+def volumePositions (pos : List V3) (rowCos colCos : V3) (hint0 : Option Rat) (allowMissing : Bool)
+    (allowDup : Bool := true) : Except ErrKind (Option (Rat × List Int)) :=
   match normHint hint0 with
   | .error e => .error e
   | .ok hint =>
     match pos with
     | [] => .error .value
     | [_] => .ok (some (defaultSpacing hint, [0]))
-    | p0 :: _ => volumePositionsMany pos p0 rowCos colCos hint allowMissing
+    | p0 :: _ => volumePositionsMany pos p0 rowCos colCos hint allowMissing allowDup
 
 /-- `_is_matrix_orthogonal(m, require_unit=False)` with the default tolerance -/
 def orthogonalCols (a : Aff) : Bool :=
@@ -406,6 +409,32 @@ def tiledVolume (k : Kind) (origin rowCos colCos : V3) (psRow psCol : Rat) (sbs 
                     rowFirst := rs, colFirst := cs }
             | .error e, _ => .error e
             | _, .error e => .error e
+
+/-! ## writing: arrays aligned to source images -/
+
+/-- SpacingBetweenSlices a segmentation records (seg/sop.py, "Automatically populate the spacing between
+slices"): the source's own value when its pixel measures carry one, otherwise what `get_volume_positions`
+(defaults: sort, no missing, no duplicates, no hint) infers from ALL source plane positions before empty planes
+are removed; nothing when they do not form a regular stack. -/
+def recordedHint (srcHint : Option Rat) (allPos : List V3) (rowCos colCos : V3) : Except ErrKind (Option Rat) :=
+  match srcHint with
+  | some h => .ok (some h)
+  | none =>
+    match volumePositions allPos rowCos colCos none false false with
+    | .error e => .error e
+    | .ok none => .ok none
+    | .ok (some (sp, _)) => .ok (some sp)
+
+/-- attributes recorded for an array aligned to source planes at `allPos` (orientation and pixel spacing copied
+from the source) of which the planes `kept` (indices into `allPos`, any order) are stored -/
+def storeAligned (rowCos colCos : V3) (psRow psCol : Rat) (srcHint : Option Rat) (allPos : List V3) (kept : List Nat) :
+    Except ErrKind Stack :=
+  match recordedHint srcHint allPos rowCos colCos with
+  | .error e => .error e
+  | .ok hint =>
+    match kept.mapM (fun k => allPos[k]?) with
+    | none => .error .index
+    | some pos => .ok { rowCos := rowCos, colCos := colCos, psRow := psRow, psCol := psCol, hint := hint, pos := pos }
 
 /-- `get_volume_geometry()` of a stacked image: the default request of `_get_stacked_volume_geometry` -/
 def volumeGeometryStack (st : Stack) (rows cols : Int) (allowMissing : Bool) : Except ErrKind StackGeom :=
